@@ -88,7 +88,8 @@ CHECKS["C01"] = dict(
           "type-bounded index, dominating i < x.len() on the same receiver and value); overflow-checked arithmetic (every subtraction, and "
           "add/mul/neg/shift/div narrower than 64 bits: interval arithmetic, dominating comparison, non-emptiness, write-counter difference); "
           "allocation sizes bounded by the input; guarded division; loop progress. Arithmetic that is a call in MIR is a site too: std operator impls on integer "
-          "references (`&u32 * u32`), abs / pow / next_power_of_two, integer sum / product, and divisions by a reference or through div_euclid / div_ceil. Each site is discharged by its rule, audited with a written "
+          "references (`&u32 * u32`), abs / pow / next_power_of_two, integer sum / product, and divisions by a reference or through div_euclid / div_ceil. An audit whose "
+          "reason leans on a boolean helper elsewhere can name it (relies_on); the helper is re-read on every run (C01-r). Each site is discharged by its rule, audited with a written "
           "reason from an independent review, or a violation; a new site in an audited function exceeds the key's count. Add/mul overflow in "
           "64-bit types, allocation failure, running time of terminating loops and decompression size are not decided."),
     design_ref="DESIGN.md sections 6 (C01) and 11.2",
